@@ -2,6 +2,7 @@ import LentilVerif.Lemmas.Zernike
 import LentilVerif.Lemmas.ZernikeTables
 import LentilVerif.Lemmas.ZernikeAlg
 import LentilVerif.Lemmas.ZernikeRow
+import LentilVerif.Lemmas.ZernikeAngular
 /-! # C11 — Zernike modes are the Noll-ordered orthonormal polynomials
 
 Property theorems only. Model: `Model/Zernike.lean` (hand-written, tied to `lentil/zernike.py` by the correspondence harness
@@ -157,6 +158,26 @@ theorem normalisation_constants (n : Nat) (m : Int) :
   have hn : (2 * ((n : ℚ) + 1)) ≠ 0 := by positivity
   unfold normSq
   split_ifs <;> (push_cast; field_simp)
+
+/-- the same with the angular integrals evaluated (Mathlib interval integrals): for m = 0 the angular factor is `∫₀^{2π} 1 = 2π`,
+for m ≥ 1 it is `∫₀^{2π} cos²(mθ) = ∫₀^{2π} sin²(mθ) = π`; with the radial norm `1/(2(n+1))` the mean square over the unit disk
+`N² · (1/(2(n+1))) · (angular integral)/π` is exactly 1 -/
+theorem normalisation_unit_mean_square (n m : ℕ) :
+    (((normSq n 0 : ℕ) : ℝ) * (1 / (2 * ((n : ℝ) + 1))) * ((∫ _θ in (0 : ℝ)..(2 * Real.pi), (1 : ℝ)) / Real.pi) = 1) ∧
+    (1 ≤ m →
+      ((normSq n m : ℕ) : ℝ) * (1 / (2 * ((n : ℝ) + 1))) * ((∫ θ in (0 : ℝ)..(2 * Real.pi), Real.cos ((m : ℝ) * θ) ^ 2) / Real.pi) = 1 ∧
+      ((normSq n (-(m : ℤ)) : ℕ) : ℝ) * (1 / (2 * ((n : ℝ) + 1))) * ((∫ θ in (0 : ℝ)..(2 * Real.pi), Real.sin ((m : ℝ) * θ) ^ 2) / Real.pi) = 1) := by
+  have hn : (2 * ((n : ℝ) + 1)) ≠ 0 := by positivity
+  have hpi : Real.pi ≠ 0 := Real.pi_ne_zero
+  constructor
+  · simp only [normSq, if_true, intervalIntegral.integral_const, sub_zero, smul_eq_mul, mul_one]
+    push_cast; field_simp
+  · intro hm
+    have m0 : ((m : ℤ) ≠ 0) := by omega
+    have m1 : (-(m : ℤ) ≠ 0) := by omega
+    rw [angular_cos_sq m hm, angular_sin_sq m hm]
+    simp only [normSq, if_neg m0, if_neg m1]
+    constructor <;> (push_cast; field_simp)
 
 /-! ## coordinates: centroid origin, unit radius at the farthest sample, support only -/
 
